@@ -202,6 +202,10 @@ func ContractPays(blocks []*RawBlock, timeOf func(height uint64) int64) []Pay {
 	return out
 }
 
+// strictKeepers: contracts whose balance of a token moves with their locked entries alone (no rewards paid out of the balance,
+// nothing burnt or spent): the surplus over what they owe never shrinks.
+var strictKeepers = map[string]bool{types.PlasmaContract.String(): true, types.StakeContract.String(): true, types.HtlcContract.String(): true}
+
 // LiabSums: per contract and token, what the contract owes.
 func LiabSums(entries []Entry) []Liab {
 	sum := map[[2]string]*big.Int{}
@@ -217,7 +221,7 @@ func LiabSums(entries []Entry) []Liab {
 	}
 	out := []Liab{}
 	for k, v := range sum {
-		out = append(out, Liab{C: k[0], T: k[1], Owed: ToDigits(v)})
+		out = append(out, Liab{C: k[0], T: k[1], Owed: ToDigits(v), Strict: strictKeepers[k[0]]})
 	}
 	sort.Slice(out, func(i, j int) bool { return out[i].C+out[i].T < out[j].C+out[j].T })
 	return out
